@@ -3,7 +3,7 @@ REG = dict(
     engine='E3-sched',
     technique='exhaustive fault (interrupt) injection at every interpreter step of each corpus program, and at every pair / triple of steps, on the real JSON-session handler; resumed to completion and compared with the uninterrupted run',
     text="For each program of a hand-written corpus (one construct per program, covering every Expression_ variant in every ExpressionState of eval_expr, plus programs ending in each kind of runtime error): T = interpreter steps of the uninterrupted session run. The interrupt flag is raised at EVERY step k in 1..T (hook in the eval loop), then `:resume` is sent until the evaluation finishes; every pair of interrupt points for T <= 40 (quick) / all programs (thorough) and every triple for T <= 24 (thorough), including re-interrupting the step that was just resumed. Oracle: the sequence of printed chunks (stdout and stderr) and the final value or error (message and position) equal those of the uninterrupted run, and every injection produces exactly one `interrupted` response. Also: the uninterrupted session outcome equals the plain `run` outcome. Fault enumeration is the right level: the property quantifies over crash points of a deterministic evaluation.",
-    note="Injection is deterministic (cumulative step counter in the worker), not a real Ctrl-C; the interrupt request path of json_session::handle_request (flag set from the reader thread) is mirrored by the hook. Programs are small (T <= 150) and single-request; definitions are loaded in a separate request that takes no step. Assertion failures are rendered 'Assertion failed' by the first response and in full by :resume; only the prefix and the position are compared there.",
+    note="History family: for every corpus program with function definitions the single injections are repeated after an earlier eval-up-to request on those definitions (which reloads them and sets a stop position), and that request must not change the uninterrupted run either. Injection is deterministic (cumulative step counter in the worker), not a real Ctrl-C; the interrupt request path of json_session::handle_request (flag set from the reader thread) is mirrored by the hook. Programs are small (T <= 150) and single-request; definitions are loaded in a separate request that takes no step. Assertion failures are rendered 'Assertion failed' by the first response and in full by :resume; only the prefix and the position are compared there.",
     design_ref='DESIGN.md §6 C08',
     level='fault_enumeration',
 )
@@ -275,6 +275,49 @@ def run(ctx):
                            "uninterrupted": {"final": base[name]["final"], "printed": base[name]["chunks"]},
                            "interrupted_run": {"final": o["final"], "printed": o["chunks"], "interrupted_responses": o["interrupts"]}},
                           cli_cmd="garden reftest-json-session <file with the request lines>")
+
+    # ---- the same single injections after an earlier eval-up-to request on the definitions (a session has history: the
+    # functions the run calls were last loaded, and a stop position last set, by that request)
+    hist = [(name, defs, src) for name, defs, src in progs if defs and "fun " in defs and "{" in defs]
+    hjobs, hmeta = [], []
+    for name, defs, src in hist:
+        off = defs.index("{", defs.index("fun ")) + 2
+        eut = json.dumps({"method": "eval_up_to", "src": defs, "offset": off})
+        T = base[name]["T"]
+        for inj in [()] + [(k,) for k in range(1, T + 1)]:
+            hjobs.append({"op": "session", "tick_limit": TICKS, "inject": list(inj), "requests": [req(defs), eut, req(src)] + [req(":resume")] * (len(inj) + 2)})
+            hmeta.append((name, inj))
+    hres = ctx.pool.map(hjobs, batch=48, timeout=60)
+    n_exec += len(hjobs)
+    hbase = {}
+    n_hist_fired = 0
+    for (name, inj), r in zip(hmeta, hres):
+        if "responses" not in r:
+            ctx.violation(f"{name}: after an eval-up-to request on its definitions: " + ("worker crash" if "crash" in r else "does not end"), {"definitions": src_of[name][0], "request": src_of[name][1], "inject": list(inj)})
+            continue
+        o = observe(r, 2)
+        if not inj:
+            hbase[name] = o
+            # the history itself must not change what the uninterrupted run does
+            hows = judge(base[name], o, 0)
+            if hows:
+                ctx.violation(f"{name}: an earlier eval-up-to request changes the uninterrupted run: {' + '.join(hows)}",
+                              {"definitions": src_of[name][0], "request": src_of[name][1], "expected": {"final": base[name]["final"], "printed": base[name]["chunks"]}, "got": {"final": o["final"], "printed": o["chunks"]}})
+            continue
+        n_hist_fired += 1 if o["interrupts"] else 0
+        hows = judge(base[name], o, 1)
+        ctx.outcome("after eval-up-to history, 1 interrupt: " + ("differs" if hows else "same outcome"))
+        if hows:
+            v = ctx.violations.get(f"{name}: interrupted after an earlier eval-up-to request on its definitions: {' + '.join(hows)}")
+            if v is None:
+                ctx.violation(f"{name}: interrupted after an earlier eval-up-to request on its definitions: {' + '.join(hows)}",
+                              {"definitions": src_of[name][0], "request": src_of[name][1], "interrupt_at_step": inj[0], "uninterrupted": {"final": base[name]["final"], "printed": base[name]["chunks"]},
+                               "interrupted_run": {"final": o["final"], "printed": o["chunks"]}}, cli_cmd="garden reftest-json-session <file with the request lines>")
+            else:
+                v["count"] += 1
+    ctx.bound("history_cases(eval-up-to before the run)", len(hjobs))
+    if hist and n_hist_fired == 0:
+        raise Machinery("vacuous: no injection fired in the eval-up-to history family")
 
     bad = {}        # (name, inj) -> hows
     cmap = {}       # (name, step) -> Variant/state of the step interrupted there
